@@ -1,4 +1,5 @@
 """C09: numbered backups never lose a version, for any name, history or kill point."""
+from ..common import rmtree as _rmtree
 import json, os, re, shutil
 from .. import build, fsmat, nsplane, runner, tlc
 from ..common import rng, scratch, ToolError
@@ -37,7 +38,7 @@ def listing(d, bases, contents):
 def replay_history(binary, h, hid, drv, bases, kill=False, inject=None):
     """Replays one history; returns list of records for Trace_Backup."""
     root = os.path.join(scratch(), "bk-%s" % hid)
-    shutil.rmtree(root, ignore_errors=True)
+    _rmtree(root)
     d = os.path.join(root, "d").encode(); src = os.path.join(root, "src").encode()
     os.makedirs(d)
     contents = fsmat.Contents()
@@ -46,7 +47,7 @@ def replay_history(binary, h, hid, drv, bases, kill=False, inject=None):
             f.write(contents.get(c))
     recs = []
     for i, st in enumerate(h["steps"]):
-        shutil.rmtree(src, ignore_errors=True); os.makedirs(src)
+        _rmtree(src); os.makedirs(src)
         with open(os.path.join(src, conc(st["name"], bases)), "wb") as f:
             f.write(contents.get(st["v"]))
         before = listing(d, bases, contents)
@@ -55,7 +56,7 @@ def replay_history(binary, h, hid, drv, bases, kill=False, inject=None):
             # kill campaign on the last step: one run per kill point, each from a fresh copy of the current state
             prof = runner.run_xcp(binary, argv, cwd=root + "-prof", timeout=30) if False else None
             saved = root + "-saved"
-            shutil.rmtree(saved, ignore_errors=True); shutil.copytree(d.decode("latin-1").encode("latin-1") if False else d, saved.encode())
+            _rmtree(saved); shutil.copytree(d.decode("latin-1").encode("latin-1") if False else d, saved.encode())
             # SIGKILL on entry to the n-th call of each mutating kind (per thread); none of these is issued during start-up,
             # so every kill lands inside the overwrite
             for sysc in ("rename", "openat+", "ftruncate", "copy_file_range", "fchmod", "utimensat", "fsync"):
@@ -70,7 +71,7 @@ def replay_history(binary, h, hid, drv, bases, kill=False, inject=None):
                     after = listing(d, bases, contents)
                     recs.append({"id": "%s/kill-%s-%d" % (hid, sysc, n), "kind": "kill", "before": before, "after": after, "name": st["name"], "mode": st["mode"],
                                  "v": st["v"], "exit": -9 if r.exit is None else r.exit})
-            shutil.rmtree(saved, ignore_errors=True)
+            _rmtree(saved)
             try:
                 os.unlink(root + ".st")
             except OSError:
@@ -88,7 +89,7 @@ def replay_history(binary, h, hid, drv, bases, kill=False, inject=None):
         after = listing(d, bases, contents)
         recs.append({"id": "%s/step%d%s" % (hid, i + 1, "/" + inject if st_ else ""), "kind": "step", "before": before, "after": after, "name": st["name"], "mode": st["mode"], "v": st["v"],
                      "exit": -9 if r.exit is None else r.exit, "_stderr": r.stderr[-200:]})
-    shutil.rmtree(root, ignore_errors=True)
+    _rmtree(root)
     return recs
 
 def run(ctx):
